@@ -70,6 +70,14 @@ func (c *BindingManager) AddBinding(remoteDevice api.DeviceRemoteInterface, data
 	c.mux.Lock()
 	defer c.mux.Unlock()
 
+	// check again now that the list is locked, a request on another
+	// connection could have added a binding since the check above
+	for _, item := range c.bindingEntries {
+		if reflect.DeepEqual(item.ServerFeature.Address(), serverFeature.Address()) {
+			return errors.New("the server feature already has a binding")
+		}
+	}
+
 	c.bindingEntries = append(c.bindingEntries, bindingEntry)
 
 	payload := api.EventPayload{
